@@ -36,7 +36,10 @@ impl RustDocument {
     }
 
     pub fn extend(&mut self, other: RustDocument) {
-        self.namespace_lookup.extend(other.namespace_lookup);
+        // the prefixes declared by this document keep their meaning; an import only adds new ones
+        let mut namespace_lookup = other.namespace_lookup;
+        namespace_lookup.extend(std::mem::take(&mut self.namespace_lookup));
+        self.namespace_lookup = namespace_lookup;
 
         extend_no_duplicates(&mut self.namespaces, other.namespaces);
         extend_no_duplicates(&mut self.target_namespaces, other.target_namespaces);
